@@ -65,8 +65,10 @@ FsModel& fs();
 struct CrashVisitor
 {
     virtual ~CrashVisitor() = default;
+    // `touched` names the one path whose content or existence changed since the previous state
+    // (empty: nothing changed)
     virtual void state(std::size_t event, std::uint64_t prefix,
-        std::map<std::string, std::string> const& files) = 0;
+        std::map<std::string, std::string> const& files, std::string const& touched) = 0;
     // which prefixes of a write of n bytes to visit (default: all)
     virtual void prefixes(std::size_t /*event*/, std::size_t n, std::vector<std::size_t>& out)
     {
